@@ -468,6 +468,27 @@ export function genRewrite(rng, params) {
     return [A("rewrite"), A(String(counter++)), p1, [["entry.ts", tsOfProg(p1)]], vals.map(encVal), q1, [["entry.ts", tsOfProg(q1)]], [A("intro-alias")]];
   }
   if (rng.chance(1, 12)) {
+    // a JSDoc comment on an INLINE union that then becomes a member of another union — through an indexed access on the documented
+    // property, as a parenthesised member, as a type argument: the comment is metadata, the union is flattened all the same
+    const pair = rng.pick([[A("number"), A("boolean")], [A("string"), A("null")], [A("number"), [A("lit"), [A("s"), "x"]]], [A("boolean"), A("null"), A("number")]]);
+    const inner = [A("union"), ...pair], other = rng.pick([A("string"), A("number"), A("null"), [A("lit"), [A("s"), "z"]]]);
+    const form = rng.below(3);
+    let p1, from, to;
+    if (form === 0) {
+      p1 = [p[0], [[A("alias"), "Row", [], [A("obj"), [["id", A("false"), inner], ["name", A("false"), A("string")]], A("none")]]], [["EX", [A("union"), [A("idx"), [A("ref"), "Row"], [A("lit"), [A("s"), "id"]]], other]]]];
+      from = "{ id:"; to = "{ /** the primary key */ id:";
+    } else if (form === 1) {
+      p1 = [p[0], [], [["EX", rng.chance(1, 2) ? [A("union"), other, inner] : [A("union"), inner, other]]]];
+      from = tsOf(inner); to = "/** numeric flags */ " + tsOf(inner);
+    } else {
+      p1 = [p[0], [[A("alias"), "OrOther", ["T"], [A("union"), [A("ref"), "T"], other]]], [["EX", [A("ref"), "OrOther", inner]]]];
+      from = "OrOther<("; to = "OrOther</** d */ (";
+    }
+    const t1 = tsOfProg(p1), t2 = t1.replace(from, to);
+    const vals = [1, 0, true, false, "s", "x", "z", null, undefined, {}, [1]];
+    if (t2 !== t1) return [A("rewrite"), A(String(counter++)), p1, [["entry.ts", t1]], vals.map(encVal), p1, [["entry.ts", t2]], [A("jsdoc")]];
+  }
+  if (rng.chance(1, 12)) {
     // two object types with the same property names and types that differ only in which properties are optional, in one
     // program, and a rewrite that flips the order in which the compiler meets them (renamed aliases / declarations swapped):
     // validators the printer hoists and shares must not be shared between the two
